@@ -2,7 +2,7 @@
    Only statements here; proofs are in Proofs/Crc*.v, Proofs/Frames*.v, Bridge/Crc.v. *)
 From Coq Require Import ZArith List Bool.
 From NV Require Import Base.Result Base.Bytes Base.PyPrims Model.Crc Model.Frames Gen.Crc
-  Proofs.Crc Proofs.CrcCheck Proofs.Frames Proofs.Frames2 Bridge.Crc Gen.FramesK Bridge.FramesK Bridge.FramesP.
+  Proofs.Crc Proofs.CrcCheck Proofs.Frames Proofs.Frames2 Bridge.Crc Gen.FramesK Bridge.FramesK Bridge.FramesP Bridge.FramesA.
 Import ListNotations.
 Open Scope Z_scope.
 
@@ -62,6 +62,13 @@ Print Assumptions C14_bridge_rcs380_build.
 Theorem C14_bridge_pn53x_parse : forall cmd frame, bytes_ok frame -> gen_pn53x_parse cmd frame = pn53x_parse cmd frame.
 Proof. exact bridge_pn53x_parse. Qed.
 Print Assumptions C14_bridge_pn53x_parse.
+
+(* the same for the ACR122: ccid_xfr_block's validation of the RDR_to_PC_DataBlock (after transport.read) followed by
+   command's validation of the pseudo-APDU response (after ccid_xfr_block), both translated on this run *)
+Theorem C14_bridge_acr122_parse : forall cmd rsp,
+  bind (gen_ccid_parse rsp) (gen_acr122_rsp_parse cmd) = acr122_parse cmd rsp.
+Proof. exact bridge_acr122_parse. Qed.
+Print Assumptions C14_bridge_acr122_parse.
 
 (* --- PN53x command frames are well formed for every payload length (normal and extended) --- *)
 Theorem C14_pn53x_build_ok : forall cmd data, len data <= 65533 ->
